@@ -121,6 +121,19 @@ def first_param_ok(F, f, mut_handles):
     return False
 
 
+def handle_producer(F, cf, mut):
+    """an unsafe associated function of a mutable-handle type that returns that handle type (possibly inside Option / Result /
+    a tuple): the unsafe constructor, or a private helper that re-positions a handle.  Being unsafe, its contract is its
+    callers' obligation — every safe caller is held to the receiver rule of R14.2."""
+    if not (cf and cf.get("unsafe") and cf.get("impl")):
+        return None
+    adt = F.adt_of(cf["impl_self_ty"])
+    if adt not in mut:
+        return None
+    out = F.types[cf["output"]]["s"]
+    return adt if adt.split("::")[-1] in out or "Self" in out else None
+
+
 def run_config(ctx, rep, cfg, F):
     holders, mut = handles(F)
     names = sorted(x.split("::")[-1] for x in mut)
@@ -150,15 +163,15 @@ def run_config(ctx, rep, cfg, F):
         for c in (body.get("mir") or {}).get("calls", []):
             callee = c.get("resolved") or c.get("callee") or ""
             cf = F.fns.get(callee)
-            if cf and cf.get("unsafe") and cf["name"] == "new" and cf.get("impl") and F.adt_of(cf["impl_self_ty"]) in mut:
-                built.add(F.adt_of(cf["impl_self_ty"]))
+            if handle_producer(F, cf, mut):
+                built.add(handle_producer(F, cf, mut))
         if not built:
             continue
         short = F.short_of[f["path"]]
         n_ctor += 1
         own = f.get("impl") and F.adt_of(f["impl_self_ty"]) in built
-        if own and f["name"] in ("new", "default") and (f.get("unsafe") or f["name"] == "default"):
-            rep.ok("R14.2", short, "unsafe constructor / Default of the handle itself")
+        if own and (handle_producer(F, f, mut) or (f["name"] == "default" and not f["inputs"])):
+            rep.ok("R14.2", short, "unsafe handle-producing function / Default of the handle itself (contract checked at its safe callers)")
             continue
         if first_param_ok(F, f, mut):
             rep.ok("R14.2", short, "exclusive receiver", sample={"fn": short, "builds": sorted(x.split("::")[-1] for x in built),
@@ -261,7 +274,7 @@ def run_config(ctx, rep, cfg, F):
                 n_unsafe_calls += 1
                 callee = n_["path"]
                 cf = F.fns.get(callee)
-                local_ok = cf is not None and cf.get("impl") and (callee == gm or (cf["name"] == "new" and F.adt_of(cf["impl_self_ty"]) in mut))
+                local_ok = cf is not None and cf.get("impl") and (callee == gm or handle_producer(F, cf, mut) is not None)
                 if local_ok or f["file"].endswith("inner.rs"):
                     rep.ok("R14.6", bshort, "unsafe call of " + n_["name"])
                 else:
